@@ -43,9 +43,22 @@ FEATURES = ['traps', 'compliance', 'compliance_objects', 'capabilities', 'capabi
             'defval_bin_octets', 'defval_empty_hex', 'tags', 'split_imports', 'module_oid']
 
 
+def multiline_text(rng):
+    t = gen.simple_text(rng)
+    r = rng.random()
+    if r < 0.35:
+        words = t.split(' ')
+        k = rng.randint(1, max(1, len(words) - 1))
+        nl = rng.choice(['\n', '\r\n', '\n   ', '\n\n', '\r'])
+        t = ' '.join(words[:k]) + nl + ' '.join(words[k:])
+        if rng.random() < 0.3:
+            t += nl + 'last line'
+    return t
+
+
 def make_set(rng, tier, feats=None):
     feats = list(feats if feats is not None else FEATURES)
-    prof = gen.profile(modules=(1, 3), nodes=(1, 5), scalars=(0, 5), tables=(0, 2), types=(0, 4),
+    prof = gen.profile(text_fn=multiline_text, modules=(1, 3), nodes=(1, 5), scalars=(0, 5), tables=(0, 2), types=(0, 4),
                        notifs=(0, 2), groups=(0, 2), features=feats, syntax='rich',
                        p_hyphen=rng.choice([0.0, 0.3]), p_label_arc=0.3, p_numeric_root=0.3,
                        max_list=rng.choice([3, 8, 20 if tier == 'thorough' else 8]))
